@@ -6,7 +6,7 @@ Import ListNotations.
 From RX Require Import Generated.
 From RX.Model Require Import Base CharClass Stream Tokenizer Doc Builder Parse.
 From RX.Spec Require Cst.
-From RX.Proofs Require Import CstLex CstBuild CstTree.
+From RX.Proofs Require Import Tactics CstLex CstBuild CstTree.
 Open Scope N_scope.
 
 Lemma bind_assoc {A B D} (r : res A) (f : A -> res B) (g : B -> res D) :
@@ -137,22 +137,35 @@ Proof.
   - unfold ends_with_byte. destruct (rev bs); [reflexivity|]. apply negb_true_iff. exact H3.
 Qed.
 
-Lemma PI_comment bs : PI (Cst.IComment bs).
+Lemma ev_comment bs p post c : Cst.wf_item (Cst.IComment bs) = true ->
+  W p (Cst.r_item (Cst.IComment bs) ++ post) -> CI c -> room c ->
+  exists c' K,
+    parse_comment text context ev (st p (Cst.r_item (Cst.IComment bs) ++ post)) c =
+    Ok (st (p + blen (Cst.r_item (Cst.IComment bs))) post, c') /\ Post (Cst.IComment bs) c c' K [].
 Proof.
-  intros p post c depth fuel Hwf HW _ I _ NR _. apply wf_comment in Hwf.
+  intros Hwf HW I R. apply wf_comment in Hwf.
   cbn [Cst.r_item] in *. rewrite <- !app_assoc in *.
-  cbn [steps Nat.add]. rewrite loop_comment by exact HW. rewrite lex_comment by assumption.
-  destruct (tok_comment text (sl (p + 4) (p + 4 + blen bs)) (p, p + 4 + blen bs + 3) c I)
-    as (c' & E & S & I' & A & T); [apply (node_room_room _ _ NR (nsize_pos _))|].
+  rewrite lex_comment by assumption.
+  destruct (tok_comment text (sl (p + 4) (p + 4 + blen bs)) (p, p + 4 + blen bs + 3) c I R)
+    as (c' & E & S & I' & A & T).
   rewrite E. cbn [bind].
-  exists c', [(Some (c_parent_id c), KComment (sl (p + 4) (p + 4 + blen bs)))], [].
+  exists c', [(Some (c_parent_id c), KComment (sl (p + 4) (p + 4 + blen bs)))].
   split.
-  - f_equal. f_equal. rewrite !blen_app. change (blen [60; 33; 45; 45]) with 4. change (blen [45; 45; 62]) with 3. lia.
+  - f_equal. f_equal. f_equal. rewrite !blen_app. change (blen [60; 33; 45; 45]) with 4. change (blen [45; 45; 62]) with 3. lia.
   - split; [exact S|]. split; [exact I'|]. split; [intros _; exact A|]. split; [apply same_tn; exact T|].
     split; [discriminate|]. split; [|reflexivity].
     cbn [tag]. constructor; [|constructor]. split; [reflexivity|]. cbn [snd].
     pose proof (W_app _ _ _ _ HW) as HW1. change (blen [60; 33; 45; 45]) with 4 in HW1.
     apply (W_slice _ _ _ _ HW1).
+Qed.
+
+Lemma PI_comment bs : PI (Cst.IComment bs).
+Proof.
+  intros p post c depth fuel Hwf HW _ I _ NR _.
+  destruct (ev_comment bs p post c Hwf HW I (node_room_room _ _ NR (nsize_pos _))) as (c' & K & E & HP).
+  exists c', K, []. split; [|exact HP].
+  cbn [steps Nat.add]. cbn [Cst.r_item] in *. rewrite <- !app_assoc in *.
+  rewrite loop_comment by exact HW. rewrite E. reflexivity.
 Qed.
 
 (* ---- processing instructions ---- *)
@@ -166,18 +179,22 @@ Proof.
   split; [apply negb_true_iff; exact H6|]. destruct s; [discriminate|discriminate].
 Qed.
 
-Lemma PI_pi t s v : PI (Cst.IPI t s v).
+Lemma ev_pi t s v p post c : Cst.wf_item (Cst.IPI t s v) = true ->
+  W p (Cst.r_item (Cst.IPI t s v) ++ post) -> CI c -> room c ->
+  exists c' K,
+    parse_pi text context ev (st p (Cst.r_item (Cst.IPI t s v) ++ post)) c =
+    Ok (st (p + blen (Cst.r_item (Cst.IPI t s v))) post, c') /\ Post (Cst.IPI t s v) c c' K [].
 Proof.
-  intros p post c depth fuel Hwf HW _ I _ NR _. apply wf_pi in Hwf.
+  intros Hwf HW I R. apply wf_pi in Hwf.
   cbn [Cst.r_item] in *. rewrite <- !app_assoc in *.
-  cbn [steps Nat.add]. rewrite loop_pi by exact HW. rewrite lex_pi by assumption. cbv zeta.
+  rewrite lex_pi by assumption. cbv zeta.
   set (vs := match v with [] => None | _ :: _ => Some (sl (p + 2 + blen t + blen s) (p + 2 + blen t + blen s + blen v)) end).
-  destruct (tok_pi text (sl (p + 2) (p + 2 + blen t)) vs (p, p + 2 + blen t + blen s + blen v + 2) c I)
-    as (c' & E & S & I' & A & T); [apply (node_room_room _ _ NR (nsize_pos _))|].
+  destruct (tok_pi text (sl (p + 2) (p + 2 + blen t)) vs (p, p + 2 + blen t + blen s + blen v + 2) c I R)
+    as (c' & E & S & I' & A & T).
   rewrite E. cbn [bind].
-  exists c', [(Some (c_parent_id c), KPI (sl (p + 2) (p + 2 + blen t)) vs)], [].
+  exists c', [(Some (c_parent_id c), KPI (sl (p + 2) (p + 2 + blen t)) vs)].
   split.
-  - f_equal. f_equal. rewrite !blen_app. change (blen [60; 63]) with 2. change (blen [63; 62]) with 2. lia.
+  - f_equal. f_equal. f_equal. rewrite !blen_app. change (blen [60; 63]) with 2. change (blen [63; 62]) with 2. lia.
   - split; [exact S|]. split; [exact I'|]. split; [intros _; exact A|]. split; [apply same_tn; exact T|].
     split; [discriminate|]. split; [|reflexivity].
     cbn [tag]. constructor; [|constructor]. split; [reflexivity|]. cbn [snd].
@@ -185,6 +202,15 @@ Proof.
     split; [apply (W_slice _ _ _ _ HW1)|].
     pose proof (W_app _ _ _ _ HW1) as HW2. pose proof (W_app _ _ _ _ HW2) as HW3.
     unfold vs. destruct v as [|x v]; [exact Logic.I|]. apply (W_slice _ _ _ _ HW3).
+Qed.
+
+Lemma PI_pi t s v : PI (Cst.IPI t s v).
+Proof.
+  intros p post c depth fuel Hwf HW _ I _ NR _.
+  destruct (ev_pi t s v p post c Hwf HW I (node_room_room _ _ NR (nsize_pos _))) as (c' & K & E & HP).
+  exists c', K, []. split; [|exact HP].
+  cbn [steps Nat.add]. cbn [Cst.r_item] in *. rewrite <- !app_assoc in *.
+  rewrite loop_pi by exact HW. rewrite E. reflexivity.
 Qed.
 
 (* ---- text ---- *)
@@ -254,7 +280,7 @@ Proof. destruct name; [discriminate|discriminate]. Qed.
 Lemma PI_empty name attrs ws : PI (Cst.IElem name attrs ws None).
 Proof.
   intros p post c depth fuel Hwf HW _ I _ NR AR.
-  destruct (wf_elem_parts _ _ _ _ Hwf) as (Hn & Ha & Hx & Hd & Hw & _).
+  destruct (wf_elem_parts _ _ _ _ Hwf) as (Hn & Ha & Hx & Hd & Hw & _). clear Hwf.
   rewrite r_item_elem in *. rewrite <- !app_assoc in HW |- *.
   change ([47; 62] ++ post) with (tag_tail true ++ post) in *.
   cbn [steps Nat.add]. rewrite loop_elem' by assumption.
@@ -263,7 +289,7 @@ Proof.
   destruct (start_tag_ok text p name attrs ws true post c HW (wf_name_ne _ Hn) Ha Hx Hd I)
     as (c' & ar & E & S & Hkm & I' & A & T & P1 & P2);
     [apply (node_room_room _ _ NR (nsize_pos _))|unfold attr_room, len_N in *; lia|].
-  cbv zeta in E. apply Tactics.bind_ok in E. destruct E as (c1 & E1 & E2).
+  cbv zeta in E. apply bind_ok in E. destruct E as (c1 & E1 & E2).
   rewrite E1. cbn [bind]. rewrite E2. cbn [bind negb].
   exists c', [(Some (c_parent_id c), KElement None (sl (p + 1) (p + 1 + blen name)) ar (1, 1))],
     (map ad_of (tas (p + 1 + blen name) attrs)).
@@ -277,4 +303,312 @@ Proof.
       unfold len_N in L. lia.
 Qed.
 
+
+(* ---- lists of children ---- *)
+Definition head_text_ok (cs : list Cst.item) (c : context) : Prop :=
+  match cs with i :: _ => Cst.is_text i = true -> c_after_text c = [] | [] => True end.
+
+Definition PL (cs : list Cst.item) : Prop :=
+  forall p post c depth fuel,
+    wf_items cs = true -> Cst.no_adjacent_text cs = true -> W p (r_items cs ++ post) -> text_stop post ->
+    CI c -> head_text_ok cs c -> node_room c (nsizes cs) -> attr_room c (nattrs_items cs) ->
+    exists c' K ext,
+      loop (steps_list cs + fuel) depth (st p (r_items cs ++ post)) c =
+      loop fuel depth (st (p + blen (r_items cs)) post) c' /\
+      Step c c' K ext /\ CI c' /\ (tn_set c -> tn_set c') /\
+      Forall2 (km text (d_attrs (c_doc c'))) K (tag_list (c_parent_id c) (len_N (d_nodes (c_doc c))) cs) /\
+      length ext = nattrs_items cs.
+
+Lemma Forall2_len_N {A B} (R : A -> B -> Prop) l l' : Forall2 R l l' -> len_N l = len_N l'.
+Proof. intros H. unfold len_N. induction H; cbn [length]; lia. Qed.
+
+Lemma Step_nodes_len c c' K ext : Step c c' K ext ->
+  len_N (d_nodes (c_doc c')) = len_N (d_nodes (c_doc c)) + len_N K.
+Proof. intros [S _]. apply (Step0_len _ _ _ _ S). Qed.
+
+Lemma Step_attrs_len c c' K ext : Step0 c c' K ext ->
+  len_N (d_attrs (c_doc c')) = len_N (d_attrs (c_doc c)) + len_N ext.
+Proof. intros S. rewrite (s_attrs _ _ _ _ S), len_N_app. reflexivity. Qed.
+
+Lemma Step_opt c c' K ext : Step0 c c' K ext -> c_opt c' = c_opt c.
+Proof. intros S. apply (s_keep _ _ _ _ S). Qed.
+
+Lemma km_Forall2_ext A ext K T : Forall2 (km text A) K T -> Forall2 (km text (A ++ ext)) K T.
+Proof. intros H. induction H; constructor; [apply km_ext; assumption|assumption]. Qed.
+
+Lemma PL_of cs : Forall PI cs -> PL cs.
+Proof.
+  induction 1 as [|i r Hi _ IH]; intros p post c depth fuel Hwf Hna HW Hstop I Hhd NR AR.
+  - exists c, [], []. cbn [steps_list r_items app Nat.add blen length] in *.
+    change (N.of_nat 0) with 0. rewrite N.add_0_r.
+    split; [reflexivity|]. split; [apply Step_refl|]. split; [exact I|]. split; [auto|].
+    split; [constructor|reflexivity].
+  - cbn [wf_items] in Hwf. apply andb_true_iff in Hwf. destruct Hwf as [Hw1 Hw2].
+    cbn [r_items] in HW |- *. rewrite <- app_assoc in HW |- *.
+    rewrite nsizes_cons in NR. cbn [nattrs_items] in AR.
+    assert (Hna2 : Cst.no_adjacent_text r = true).
+    { destruct r as [|d r']; [reflexivity|]. cbn [Cst.no_adjacent_text] in Hna.
+      apply andb_true_iff in Hna. apply Hna. }
+    assert (Hnext : forall d r', r = d :: r' -> Cst.is_text i = true -> Cst.is_text d = false).
+    { intros d r' -> Hi1. cbn [Cst.no_adjacent_text] in Hna. apply andb_true_iff in Hna.
+      destruct Hna as [Hna _]. rewrite Hi1 in Hna. cbn [andb] in Hna. apply negb_true_iff in Hna. exact Hna. }
+    assert (Hfollow : Cst.is_text i = true -> text_stop (r_items r ++ post)).
+    { intros Hi1. destruct r as [|d r']; [exact Hstop|].
+      destruct (nontext_starts d (Hnext d r' eq_refl Hi1)) as [l El].
+      cbn [r_items]. rewrite El. reflexivity. }
+    destruct (Hi p (r_items r ++ post) c depth (steps_list r + fuel)%nat Hw1 HW Hfollow I Hhd)
+      as (c1 & K1 & e1 & E1 & S1 & I1 & A1 & T1 & _ & F1 & L1).
+    { unfold node_room in *. lia. }
+    { unfold attr_room in *. lia. }
+    pose proof (Step_nodes_len _ _ _ _ S1) as Ln1.
+    rewrite (Forall2_len_N _ _ _ F1) in Ln1. unfold len_N at 3 in Ln1. rewrite tag_len in Ln1.
+    pose proof (Step_attrs_len _ _ _ _ (proj1 S1)) as La1. unfold len_N at 3 in La1. rewrite L1 in La1.
+    pose proof (Step_opt _ _ _ _ (proj1 S1)) as Lo1.
+    destruct (IH (p + blen (Cst.r_item i)) post c1 depth fuel Hw2 Hna2 (W_app _ _ _ _ HW) Hstop I1)
+      as (c2 & K2 & e2 & E2 & S2 & I2 & T2 & F2 & L2).
+    { destruct r as [|d r']; [exact Logic.I|]. cbn [head_text_ok]. intros Hd. apply A1.
+      destruct (Cst.is_text i) eqn:Ei; [|reflexivity].
+      rewrite (Hnext d r' eq_refl eq_refl) in Hd. discriminate. }
+    { unfold node_room in *. rewrite Ln1, Lo1. lia. }
+    { unfold attr_room in *. rewrite La1. lia. }
+    exists c2, (K1 ++ K2), (e1 ++ e2). split.
+    { cbn [steps_list]. rewrite <- Nat.add_assoc, E1, E2. f_equal. f_equal. rewrite blen_app. lia. }
+    split; [eapply Step_trans; eassumption|]. split; [exact I2|]. split; [auto|]. split.
+    + cbn [tag_list]. apply Forall2_app.
+      * rewrite (s_attrs _ _ _ _ (proj1 S2)). apply km_Forall2_ext. exact F1.
+      * destruct S1 as (_ & P1 & _). rewrite P1, Ln1 in F2. exact F2.
+    + rewrite app_length, L1, L2. reflexivity.
+Qed.
+
+
+(* lia without the stream hypotheses (they only slow zify down) *)
+Ltac clia := repeat match goal with H : @eq bool _ true |- _ => clear H end; lia.
+
+Lemma PI_open name attrs ws cs ws2 : PL cs -> PI (Cst.IElem name attrs ws (Some (cs, ws2))).
+Proof.
+  intros HPL p post c depth fuel Hwf HW _ I _ NR AR.
+  destruct (wf_elem_parts _ _ _ _ Hwf) as (Hn & Ha & Hx & Hd & Hw & Hw2 & Hna & Hcs). clear Hwf.
+  rewrite r_item_elem in *. rewrite <- !app_assoc in HW |- *.
+  set (post2 := [60; 47] ++ name ++ ws2 ++ [62] ++ post) in *.
+  change ([62] ++ r_items cs ++ post2) with (tag_tail false ++ (r_items cs ++ post2)) in *.
+  rewrite nsize_elem in NR. rewrite nattrs_elem in AR.
+  rewrite steps_elem. cbn [Nat.add]. rewrite loop_elem' by assumption.
+  rewrite lex_element by assumption. cbv zeta.
+  destruct (start_tag_ok text p name attrs ws false (r_items cs ++ post2) c HW (wf_name_ne _ Hn) Ha Hx Hd I)
+    as (c1 & ar & E & S1 & Hkm & I1 & A1 & T1 & P1 & P2 & P3);
+    [unfold node_room, room in *; clia|unfold attr_room, len_N in *; clia|].
+  cbv zeta in E. apply bind_ok in E. destruct E as (c0 & E0 & E1).
+  rewrite E0. cbn [bind]. rewrite E1. cbn [bind negb]. clear E0 E1 c0.
+  (* positions *)
+  pose proof (W_app _ _ _ _ HW) as HW1. change (blen [60]) with 1 in HW1.
+  pose proof (W_app _ _ _ _ HW1) as HW2. pose proof (W_app _ _ _ _ HW2) as HW3.
+  pose proof (W_app _ _ _ _ HW3) as HW4. pose proof (W_app _ _ _ _ HW4) as HW5.
+  set (q := p + 1 + blen name + blen (flat_map Cst.r_attr attrs) + blen ws + blen (tag_tail false)) in *.
+  (* the context after the start tag *)
+  pose proof (Step0_len _ _ _ _ S1) as Ln1. change (len_N [_]) with 1 in Ln1.
+  pose proof (Step_attrs_len _ _ _ _ S1) as La1. rewrite len_N_map, tas_len in La1.
+  pose proof (Step_opt _ _ _ _ S1) as Lo1.
+  replace (steps_list cs + 1 + fuel)%nat with (steps_list cs + S fuel)%nat by clia.
+  destruct (HPL q post2 c1 (depth + 1) (S fuel) Hcs Hna HW5 eq_refl I1)
+    as (c2 & K2 & e2 & E2 & S2 & I2 & T2 & F2 & L2).
+  { destruct cs; [exact Logic.I|]. intros _. exact A1. }
+  { unfold node_room in *. rewrite Ln1, Lo1. clia. }
+  { unfold attr_room, len_N in *. rewrite La1. clia. }
+  rewrite E2. clear E2.
+  pose proof (W_app _ _ _ _ HW5) as HW6. set (e := q + blen (r_items cs)) in *.
+  unfold post2 in HW6 |- *. rewrite loop_close by exact HW6.
+  rewrite lex_close by assumption. cbv zeta.
+  destruct S2 as (S2 & Pid2 & Pp2).
+  pose proof (W_app _ _ _ _ HW6) as HW7. change (blen [60; 47]) with 2 in HW7.
+  destruct (close_tag_ok text (sl (e + 2) (e + 2)) (sl (e + 2) (e + 2 + blen name))
+              (e, e + 2 + blen name + blen ws2 + 1) c2 (c_parent_id c) None
+              (sl (p + 1) (p + 1 + blen name)) ar (1, 1) name (c_parent_prefixes c) (sl (p + 1) (p + 1)) I2)
+    as (c3 & E3 & S3 & I3 & Pid3 & Pp3 & A3 & Tn3).
+  { rewrite Pid2, P1, (s_nodes _ _ _ _ S2), (s_nodes _ _ _ _ S1).
+    replace (N.to_nat (len_N (d_nodes (c_doc c)))) with (length (absn (c_doc c)))
+      by (unfold absn, len_N; rewrite map_length; clia).
+    rewrite <- app_assoc, nth_error_app2 by clia. rewrite Nat.sub_diag. reflexivity. }
+  { apply (W_slice _ _ _ _ HW1). }
+  { apply (W_slice _ _ _ _ HW7). }
+  { apply slice_empty. }
+  { rewrite Pp2, P2. reflexivity. }
+  { apply (ci_pp _ I). }
+  { apply slice_empty. }
+  { apply T2. exact T1. }
+  { rewrite (Step0_len _ _ _ _ S2), Ln1. pose proof (ci_pid _ I). clia. }
+  { destruct (ci_par _ I) as (par & k & Ep & Hk). exists par, k. split; [|exact Hk].
+    rewrite (s_nodes _ _ _ _ S2), (s_nodes _ _ _ _ S1), <- app_assoc.
+    rewrite nth_error_app1; [exact Ep|].
+    pose proof (ci_pid _ I) as Hp. rewrite <- absn_len in Hp. unfold len_N in Hp. clia. }
+  rewrite E3. cbn [bind]. replace (depth + 1 =? 0) with false by clia.
+  replace (depth + 1 - 1) with depth by clia.
+  exists c3, ((Some (c_parent_id c), KElement None (sl (p + 1) (p + 1 + blen name)) ar (1, 1)) :: K2),
+    (map ad_of (tas (p + 1 + blen name) attrs) ++ e2).
+  split.
+  { f_equal. f_equal. unfold e, q. rewrite !blen_app. change (blen [60]) with 1. change (blen [60; 47]) with 2.
+    change (blen [62]) with 1. change (blen (tag_tail false)) with 1. clear. clia. }
+  pose proof (Step0_trans _ _ _ _ _ _ _ (Step0_trans _ _ _ _ _ _ _ S1 S2) S3) as S13.
+  rewrite !app_nil_r in S13. cbn [app] in S13.
+  split; [split; [exact S13|split; [exact Pid3|exact Pp3]]|]. split; [exact I3|].
+  split; [intros _; exact A3|].
+  assert (T3 : tn_set c3) by (apply (same_tn _ _ Tn3); apply T2; exact T1).
+  split; [intros _; exact T3|]. split; [intros _; exact T3|]. split.
+  - rewrite tag_elem. rewrite (s_attrs _ _ _ _ S3), app_nil_r. constructor.
+    + rewrite (s_attrs _ _ _ _ S2). apply km_ext. apply Hkm.
+    + rewrite P1, Ln1 in F2. exact F2.
+  - rewrite app_length, map_length, L2, nattrs_elem. pose proof (tas_len attrs (p + 1 + blen name)) as L.
+    unfold len_N in L. clia.
+Qed.
+
+Theorem PI_all : forall i, PI i.
+Proof.
+  intros i. induction i as [n a w|n a w cs w2 IH|bs|bs|t s v] using item_ind'.
+  - apply PI_empty.
+  - apply PI_open. apply PL_of. exact IH.
+  - apply PI_text.
+  - apply PI_comment.
+  - apply PI_pi.
+Qed.
+
+Theorem PL_all : forall cs, PL cs.
+Proof. intros cs. apply PL_of. apply Forall_forall. intros i _. apply PI_all. Qed.
+
+
+(* ---- the root element: parse_element, then parse_content at depth 0 ---- *)
+Lemma steps_le : forall i, Cst.wf_item i = true -> (steps i <= length (Cst.r_item i))%nat.
+Proof.
+  intros i. induction i as [n a w|n a w cs w2 IH|bs|bs|t s v] using item_ind'; intros Hwf.
+  - rewrite r_item_elem, !app_length. cbn [steps length]. lia.
+  - destruct (wf_elem_parts _ _ _ _ Hwf) as (_ & _ & _ & _ & _ & _ & _ & Hcs).
+    rewrite r_item_elem, steps_elem, !app_length. cbn [length].
+    assert (G : (steps_list cs <= length (r_items cs))%nat).
+    { clear - IH Hcs. induction IH as [|c r Hc _ IHr]; [cbn; lia|].
+      cbn [wf_items] in Hcs. apply andb_true_iff in Hcs. destruct Hcs as [H1 H2].
+      cbn [steps_list r_items]. rewrite app_length. specialize (Hc H1). specialize (IHr H2). lia. }
+    lia.
+  - destruct (wf_text _ Hwf) as (_ & Hne & _). destruct bs; [congruence|]. cbn. lia.
+  - cbn [Cst.r_item steps]. rewrite !app_length. cbn [length]. lia.
+  - cbn [Cst.r_item steps]. rewrite !app_length. cbn [length]. lia.
+Qed.
+
+Lemma steps_list_le : forall cs, wf_items cs = true -> (steps_list cs <= length (r_items cs))%nat.
+Proof.
+  induction cs as [|c r IH]; intros Hwf; [cbn; lia|].
+  cbn [wf_items] in Hwf. apply andb_true_iff in Hwf. destruct Hwf as [H1 H2].
+  cbn [steps_list r_items]. rewrite app_length. pose proof (steps_le c H1). specialize (IH H2). lia.
+Qed.
+
+Lemma root_ok name attrs ws body p post c :
+  Cst.wf_item (Cst.IElem name attrs ws body) = true ->
+  W p (Cst.r_item (Cst.IElem name attrs ws body) ++ post) ->
+  CI c -> node_room c (nsize (Cst.IElem name attrs ws body)) ->
+  attr_room c (nattrs (Cst.IElem name attrs ws body)) ->
+  exists c' K ext,
+    (let! (open, s, c) := parse_element text context ev
+                            (st p (Cst.r_item (Cst.IElem name attrs ws body) ++ post)) c in
+     if open then parse_content text context ev s c else Ok (s, c)) =
+    Ok (st (p + blen (Cst.r_item (Cst.IElem name attrs ws body))) post, c') /\
+    Post (Cst.IElem name attrs ws body) c c' K ext.
+Proof.
+  intros Hwf HW I NR AR. destruct body as [[cs ws2]|].
+  - (* open *)
+    destruct (wf_elem_parts _ _ _ _ Hwf) as (Hn & Ha & Hx & Hd & Hw & Hw2 & Hna & Hcs). clear Hwf.
+    rewrite r_item_elem in *. rewrite <- !app_assoc in HW |- *.
+    set (post2 := [60; 47] ++ name ++ ws2 ++ [62] ++ post) in *.
+    change ([62] ++ r_items cs ++ post2) with (tag_tail false ++ (r_items cs ++ post2)) in *.
+    rewrite nsize_elem in NR. rewrite nattrs_elem in AR.
+    rewrite lex_element by assumption. cbv zeta.
+    destruct (start_tag_ok text p name attrs ws false (r_items cs ++ post2) c HW (wf_name_ne _ Hn) Ha Hx Hd I)
+      as (c1 & ar & E & S1 & Hkm & I1 & A1 & T1 & P1 & P2 & P3);
+      [unfold node_room, room in *; clia|unfold attr_room, len_N in *; clia|].
+    cbv zeta in E. apply bind_ok in E. destruct E as (c0 & E0 & E1).
+    rewrite E0. cbn [bind]. rewrite E1. cbn [bind negb]. clear E0 E1 c0.
+    pose proof (W_app _ _ _ _ HW) as HW1. change (blen [60]) with 1 in HW1.
+    pose proof (W_app _ _ _ _ HW1) as HW2. pose proof (W_app _ _ _ _ HW2) as HW3.
+    pose proof (W_app _ _ _ _ HW3) as HW4. pose proof (W_app _ _ _ _ HW4) as HW5.
+    set (q := p + 1 + blen name + blen (flat_map Cst.r_attr attrs) + blen ws + blen (tag_tail false)) in *.
+    pose proof (Step0_len _ _ _ _ S1) as Ln1. change (len_N [_]) with 1 in Ln1.
+    pose proof (Step_attrs_len _ _ _ _ S1) as La1. rewrite len_N_map, tas_len in La1.
+    pose proof (Step_opt _ _ _ _ S1) as Lo1.
+    unfold parse_content. cbn [CstLex.st s_rest].
+    pose proof (steps_list_le cs Hcs) as Hst.
+    replace (S (length (r_items cs ++ post2)))
+      with (steps_list cs + S (length (r_items cs ++ post2) - steps_list cs))%nat
+      by (rewrite app_length; clia).
+    fold (st q (r_items cs ++ post2)).
+    destruct (PL_all cs q post2 c1 0 (S (length (r_items cs ++ post2) - steps_list cs)) Hcs Hna HW5 eq_refl I1)
+      as (c2 & K2 & e2 & E2 & S2 & I2 & T2 & F2 & L2).
+    { destruct cs; [exact Logic.I|]. intros _. exact A1. }
+    { unfold node_room in *. rewrite Ln1, Lo1. clia. }
+    { unfold attr_room, len_N in *. rewrite La1. clia. }
+    rewrite E2. clear E2.
+    pose proof (W_app _ _ _ _ HW5) as HW6. set (e := q + blen (r_items cs)) in *.
+    unfold post2 in HW6 |- *. rewrite loop_close by exact HW6.
+    rewrite lex_close by assumption. cbv zeta.
+    destruct S2 as (S2 & Pid2 & Pp2).
+    pose proof (W_app _ _ _ _ HW6) as HW7. change (blen [60; 47]) with 2 in HW7.
+    destruct (close_tag_ok text (sl (e + 2) (e + 2)) (sl (e + 2) (e + 2 + blen name))
+                (e, e + 2 + blen name + blen ws2 + 1) c2 (c_parent_id c) None
+                (sl (p + 1) (p + 1 + blen name)) ar (1, 1) name (c_parent_prefixes c) (sl (p + 1) (p + 1)) I2)
+      as (c3 & E3 & S3 & I3 & Pid3 & Pp3 & A3 & Tn3).
+    { rewrite Pid2, P1, (s_nodes _ _ _ _ S2), (s_nodes _ _ _ _ S1).
+      replace (N.to_nat (len_N (d_nodes (c_doc c)))) with (length (absn (c_doc c)))
+        by (unfold absn, len_N; rewrite map_length; clia).
+      rewrite <- app_assoc, nth_error_app2 by clia. rewrite Nat.sub_diag. reflexivity. }
+    { apply (W_slice _ _ _ _ HW1). }
+    { apply (W_slice _ _ _ _ HW7). }
+    { apply slice_empty. }
+    { rewrite Pp2, P2. reflexivity. }
+    { apply (ci_pp _ I). }
+    { apply slice_empty. }
+    { apply T2. exact T1. }
+    { rewrite (Step0_len _ _ _ _ S2), Ln1. pose proof (ci_pid _ I). clia. }
+    { destruct (ci_par _ I) as (par & k & Ep & Hk). exists par, k. split; [|exact Hk].
+      rewrite (s_nodes _ _ _ _ S2), (s_nodes _ _ _ _ S1), <- app_assoc.
+      rewrite nth_error_app1; [exact Ep|].
+      pose proof (ci_pid _ I) as Hp. rewrite <- absn_len in Hp. unfold len_N in Hp. clia. }
+    rewrite E3. cbn [bind]. change (0 =? 0) with true. cbv iota.
+    exists c3, ((Some (c_parent_id c), KElement None (sl (p + 1) (p + 1 + blen name)) ar (1, 1)) :: K2),
+      (map ad_of (tas (p + 1 + blen name) attrs) ++ e2).
+    split.
+    { f_equal. f_equal. f_equal. unfold e, q. rewrite !blen_app. change (blen [60]) with 1. change (blen [60; 47]) with 2.
+      change (blen [62]) with 1. change (blen (tag_tail false)) with 1. clear. clia. }
+    pose proof (Step0_trans _ _ _ _ _ _ _ (Step0_trans _ _ _ _ _ _ _ S1 S2) S3) as S13.
+    rewrite !app_nil_r in S13. cbn [app] in S13.
+    split; [split; [exact S13|split; [exact Pid3|exact Pp3]]|]. split; [exact I3|].
+    split; [intros _; exact A3|].
+    assert (T3 : tn_set c3) by (apply (same_tn _ _ Tn3); apply T2; exact T1).
+    split; [intros _; exact T3|]. split; [intros _; exact T3|]. split.
+    + rewrite tag_elem. rewrite (s_attrs _ _ _ _ S3), app_nil_r. constructor.
+      * rewrite (s_attrs _ _ _ _ S2). apply km_ext. apply Hkm.
+      * rewrite P1, Ln1 in F2. exact F2.
+    + rewrite app_length, map_length, L2, nattrs_elem. pose proof (tas_len attrs (p + 1 + blen name)) as L.
+      unfold len_N in L. clia.
+  - (* empty *)
+    destruct (wf_elem_parts _ _ _ _ Hwf) as (Hn & Ha & Hx & Hd & Hw & _). clear Hwf.
+    rewrite r_item_elem in *. rewrite <- !app_assoc in HW |- *.
+    change ([47; 62] ++ post) with (tag_tail true ++ post) in *.
+    rewrite lex_element by assumption. cbv zeta.
+    rewrite nattrs_elem, Nat.add_0_r in AR.
+    destruct (start_tag_ok text p name attrs ws true post c HW (wf_name_ne _ Hn) Ha Hx Hd I)
+      as (c' & ar & E & S & Hkm & I' & A & T & P1 & P2);
+      [apply (node_room_room _ _ NR (nsize_pos _))|unfold attr_room, len_N in *; clia|].
+    cbv zeta in E. apply bind_ok in E. destruct E as (c1 & E1 & E2).
+    rewrite E1. cbn [bind]. rewrite E2. cbn [bind negb].
+    exists c', [(Some (c_parent_id c), KElement None (sl (p + 1) (p + 1 + blen name)) ar (1, 1))],
+      (map ad_of (tas (p + 1 + blen name) attrs)).
+    split.
+    + f_equal. f_equal. f_equal. rewrite !blen_app. change (blen [60]) with 1. change (blen (tag_tail true)) with 2.
+      change (blen [47; 62]) with 2. clia.
+    + split; [split; [exact S|split; assumption]|]. split; [exact I'|]. split; [intros _; exact A|].
+      split; [intros _; exact T|]. split; [intros _; exact T|]. split.
+      * cbn [tag]. constructor; [|constructor]. apply Hkm.
+      * rewrite map_length, nattrs_elem, Nat.add_0_r. pose proof (tas_len attrs (p + 1 + blen name)) as L.
+        unfold len_N in L. clia.
+Qed.
+
 End Items.
+
+Print Assumptions PI_all.
+Print Assumptions PL_all.
+Print Assumptions root_ok.
